@@ -367,8 +367,8 @@ impl Family for C12 {
 
     fn runs(t: Tier) -> u64 {
         match t {
-            Tier::Quick => 300_000,
-            Tier::Thorough => 20_000_000,
+            Tier::Quick => 3_000_000,
+            Tier::Thorough => 200_000_000,
         }
     }
 }
